@@ -129,6 +129,13 @@ def run(ctx, idx):
     n_q = 0
     for f in funcs:
         for n in own_nodes(f.node):
+            if isinstance(n, ast.Call) and isinstance(n.func, ast.Attribute) and n.func.attr == "dumps" and isinstance(n.func.value, ast.Name) and n.func.value.id == "json" and f.name not in quoting:
+                n_q += 1
+                ea = next((k.value for k in n.keywords if k.arg == "ensure_ascii"), None)
+                okq = isinstance(ea, ast.Constant) and ea.value is False
+                ctx.ob("C15.b", "%s::quoted-by(json.dumps)" % f.key, K.rel(f), n.lineno, okq,
+                       "json.dumps(..., ensure_ascii=False): escapes the reader decodes" if okq else
+                       "json.dumps escapes non-ASCII text as \\uXXXX and characters outside the BMP as UTF-16 surrogate pairs, which the reader's unicode_escape decoding does not recombine: such strings do not read back")
             if isinstance(n, ast.Call) and isinstance(n.func, ast.Name) and n.func.id in quoting and f.name not in quoting:
                 n_q += 1
                 okq, whyq = quoting[n.func.id]
@@ -164,7 +171,7 @@ def run(ctx, idx):
     if sv is None:
         raise AnalysisError("C15.b: the function choosing between bare and quoted emission was not found")
     cfg = K.cfg_of(idx, sv)
-    quoted_rets = [r for r in cfg.find("return") if isinstance(r.ast.value, ast.Call) and ((isinstance(r.ast.value.func, ast.Attribute) and r.ast.value.func.attr == "format" and '"' in str(getattr(r.ast.value.func.value, "value", ""))) or (isinstance(r.ast.value.func, ast.Name) and r.ast.value.func.id in quoting))]
+    quoted_rets = [r for r in cfg.find("return") if isinstance(r.ast.value, ast.Call) and ((isinstance(r.ast.value.func, ast.Attribute) and r.ast.value.func.attr == "format" and '"' in str(getattr(r.ast.value.func.value, "value", ""))) or (isinstance(r.ast.value.func, ast.Name) and r.ast.value.func.id in quoting) or K.src(r.ast.value.func) == "json.dumps")]
     str_tests = [t for t in cfg.find("test") if "string_types" in t.text() or "isinstance" in t.text() and "str" in t.text()]
     ref_tests = [t for t in cfg.find("test") if "ResultParameter" in t.text()]
     ok = bool(quoted_rets) and bool(str_tests) and bool(ref_tests) and all(cfg.dominates(ref_tests[0], s) for s in str_tests)
